@@ -2,14 +2,23 @@
 
 PROVE  coq/Properties/C13.v (Model/Dispatcher.v against Spec/C13Spec.v: any number of webhook threads,
        events, keys; any schedule).
-GEN    Facts_C13.v from the AST of /repo: put_job's membership test (which collections it looks at),
-       process_task's try/except/finally (caught classes, details rules, what sits in `finally`),
-       process/_process_error (which classes are re-raised under `backtrace`), the server's
-       `settings['backtrace'] = True`, the `__eq__` methods of job.py, tasks_done maxlen, and the MRO of
-       one representative exception class per outcome kind (live classes).  Fail closed.
+GEN    Facts_C13.v from the BEHAVIOUR of the tree under test (no fact is read from the shape of the source):
+       put_job run on instances holding an equal job in every subset of {pending, current, tasks_done} (which
+       collections make it drop a request); process_task / process run on a job ending with each class of a
+       probe domain (builtins on both sides of Exception, every class of bert_e.exceptions, a fresh subclass of
+       each; three messages; backtrace on and off) with logging stand-ins for the shared collections (caught
+       classes, details rules - the class tuples are the ones the code itself hands to isinstance(err, ...),
+       kept only if they describe the whole observed grid, else the minimal roots of the grid -, the final
+       calls and their order on every path, classes process turns into a return value unless backtrace);
+       setup_bert_e run with stand-ins (settings.backtrace of the worker, the worker loop); BertE.__init__ run
+       with stand-ins (Queue(), {}, deque maxlen); __eq__ of the job classes on a grid of partners; the MRO of one
+       representative exception class per outcome kind (live classes).  Fail closed: a behaviour the model
+       cannot express raises.
 CORR   the REAL BertE.put_job / process_task / process run in real threads under the controlled scheduler
-       of harness/lib/sched.py (a stop at every line of those three functions and of the __eq__ methods of
-       job.py, and at the entry of Queue.put / Queue.get), against the extracted model on the same schedule.
+       of harness/lib/sched.py (a stop at every line of those three functions, of any /repo helper inside
+       which the probes of GEN saw a step of the model happen - the final calls or the membership test moved
+       to a private method -, and of the __eq__ methods of job.py, and at the entry of Queue.put / Queue.get),
+       against the extracted model on the same schedule.
        Stops and model steps: a released segment (from one stop of a thread to its next stop) is a model
        step of that thread iff something observable happened in it: a mark (arrive / put / skip / accepted /
        rejected / start / finish / died), the beginning of the deque scan, the return of an __eq__ call
@@ -17,14 +26,16 @@ CORR   the REAL BertE.put_job / process_task / process run in real threads under
        (pending queue, status['current job'], tasks_done with status/details of the recorded jobs).
        Every other segment (between two lines of one __eq__, LOG lines, the except-clause bookkeeping on the
        job object, complete(), task_done(), ...) touches no shared state and is mapped to a no-op turn of the
-       model schedule.  After EVERY release the snapshot is compared with the model's state.
+       model schedule.  After EVERY release the snapshot is compared with the model's state.  (The job the
+       worker took counts as status['current job'] from the get on, also when the marker is stored by the
+       statement after the get instead of the same chained assignment: one step of the model either way.)
 Monitor: the extracted Spec monitors (no_loss, dedup, worker) on the real history.
 
 Stubs/monkey-patches: BertE instance built with __new__ (no network/git), task_queue.queue replaced by a
 deque subclass whose __contains__ notes scan begin/end around deque.__contains__, task_queue.put/get wrapped,
 job handlers registered on a BertE subclass raise the outcome chosen for the job.
 """
-import ast
+import contextlib
 import itertools
 import json
 import logging
@@ -68,350 +79,794 @@ NOOP = 99
 
 
 # ======================================================================================== facts
+#
+# Every fact is OBSERVED on the running code of the tree under test (core.REPO), never read from the shape of its
+# source: the real put_job / process_task / process / __eq__ / BertE.__init__ / setup_bert_e are run on small
+# complete probe domains with stand-in collaborators, and the data the model needs is derived from what they
+# did.  A rewrite that keeps the behaviour (helpers, early returns, module constants, lookup tables, renamed
+# locals, De Morgan) therefore yields the same facts; a behaviour the model cannot express makes the
+# derivation raise (fail closed).
 
-def _parse(rel):
-    return ast.parse(open(os.path.join(core.REPO, rel)).read())
-
-
-def _method(tree, cls, name):
-    for node in tree.body:
-        if isinstance(node, ast.ClassDef) and node.name == cls:
-            for n in node.body:
-                if isinstance(n, ast.FunctionDef) and n.name == name:
-                    return n
-            return None
-    raise ValueError('class %s not found' % cls)
-
-
-def _attr_chain(node):
-    """self.a.b -> ['self','a','b'] ; None when the expression is not a pure attribute chain."""
-    out = []
-    while isinstance(node, ast.Attribute):
-        out.append(node.attr)
-        node = node.value
-    if isinstance(node, ast.Name):
-        out.append(node.id)
-        return list(reversed(out))
-    return None
+_SCOPES = ('pending', 'current', 'done')
+_FIN = ('complete', 'task_done', 'record', 'clear')
+_KIND_OF = (('PullRequestJob', 'P'), ('CommitJob', 'C'), ('APIJob', 'A'))
+_OBSERVABLE = ('get', 'set', 'record', 'clear', 'put', 'scan')   # what a step of the model is made of
+_CACHE = {}
 
 
-def _names(node):
-    if isinstance(node, ast.Tuple):
-        return [x for e in node.elts for x in _names(e)]
-    if isinstance(node, ast.Name):
-        return [node.id]
-    raise ValueError('expected exception class name(s): ' + ast.dump(node)[:80])
+def _cached(fn):
+    def wrapper():
+        if fn.__name__ not in _CACHE:
+            _CACHE[fn.__name__] = fn()
+        return _CACHE[fn.__name__]
+    wrapper.__name__ = fn.__name__
+    wrapper.__doc__ = fn.__doc__
+    return wrapper
 
 
-def _is_log_call(st):
-    return (isinstance(st, ast.Expr) and isinstance(st.value, ast.Call)
-            and (_attr_chain(st.value.func) or [''])[0] == 'LOG')
+class _Settings(dict):
+    __getattr__ = dict.__getitem__
 
 
-def _dedup_scope(fn):
-    """put_job: one `if <test>: put ... else: skip`; which shared collections does <test> look at?"""
-    body = [s for s in fn.body if not (isinstance(s, ast.Expr) and isinstance(s.value, ast.Constant))]
-    if len(body) != 1 or not isinstance(body[0], ast.If):
-        raise ValueError('put_job: expected a single if statement')
-    iff = body[0]
-    jobvar = fn.args.args[1].arg
-    puts = [s for s in iff.body if not _is_log_call(s)]
-    if (len(puts) != 1 or not isinstance(puts[0], ast.Expr) or not isinstance(puts[0].value, ast.Call)
-            or _attr_chain(puts[0].value.func) != ['self', 'task_queue', 'put']
-            or [getattr(a, 'id', None) for a in puts[0].value.args] != [jobvar]):
-        raise ValueError('put_job: the then-branch is not `self.task_queue.put(job)`')
-    if [s for s in iff.orelse if not _is_log_call(s)]:
-        raise ValueError('put_job: the else-branch does more than logging')
-    scope = []
+class _Loose(object):
+    """Stand-in for a collaborator whose answers do not matter (git host client, repository, robot, ...)."""
 
-    def add(chain):
-        if chain[:3] == ['self', 'task_queue', 'queue'] and len(chain) == 3:
-            scope.append('pending')
-        elif chain[:2] == ['self', 'tasks_done'] and len(chain) == 2:
-            scope.append('done')
-        elif chain[:2] == ['self', 'status']:
-            scope.append('current')
+    def __getattr__(self, name):
+        if name.startswith('__'):
+            raise AttributeError(name)
+        return _Loose()
+
+    def __call__(self, *a, **k):
+        return _Loose()
+
+    def __iter__(self):
+        return iter(())
+
+    def __bool__(self):
+        return False
+
+    def __str__(self):
+        return 'loose'
+
+
+class _LooseSettings(dict):
+    def __getattr__(self, name):
+        if name.startswith('__'):
+            raise AttributeError(name)
+        return self[name] if name in self else _Loose()
+
+
+_REPO_FILES = {}
+
+
+def _in_repo(code):
+    fn = code.co_filename
+    if fn not in _REPO_FILES:
+        root = os.path.realpath(core.REPO) + os.sep
+        _REPO_FILES[fn] = os.path.realpath(fn).startswith(root)
+    return _REPO_FILES[fn]
+
+
+@contextlib.contextmanager
+def _swapped(pairs, namespaces):
+    """Temporarily replace, in every namespace given, each global that IS one of the real objects (whatever
+    name it was imported under) by its stand-in."""
+    saved = []
+    try:
+        for ns in namespaces:
+            for k, v in list(vars(ns).items()):
+                for real, fake in pairs:
+                    if v is real:
+                        saved.append((ns, k, v))
+                        setattr(ns, k, fake)
+        yield
+    finally:
+        for ns, k, v in saved:
+            setattr(ns, k, v)
+
+
+@_cached
+def _classes():
+    """Once per process: import bert_e, BertE subclass with stub handlers."""
+    logging.disable(logging.CRITICAL)
+    from bert_e.bert_e import BertE
+    from bert_e import job as jobmod
+    from bert_e import exceptions as ex
+
+    class TemplateStub(ex.TemplateException):
+        def __init__(self):
+            Exception.__init__(self, 'template stub')
+
+    class B(BertE):
+        pass
+
+    def make_exc(kind, vid):
+        return {'silent': lambda: ex.SilentException('quiet'),
+                'template': TemplateStub,
+                'internal': lambda: ex.InternalException('internal'),
+                'jobfailure': lambda: ex.JobFailure('job failed'),
+                'other': lambda: KeyError('boom'),
+                'other_empty': EMPTY_MESSAGE_CLASSES[(vid * 7 + vid // 10) % len(EMPTY_MESSAGE_CLASSES)],
+                'other_multi': lambda: ValueError('first line\nsecond line\n\nlast line')}[kind]()
+
+    def handler(job):
+        job._handled = True
+        probe = getattr(job, '_probe', None)
+        if probe is not None:
+            probe.log('handle', job)
+        exc = getattr(job, '_exc', None)                   # a probe of gen_facts chose the exception object
+        if exc is None and job._outcome != 'ret':
+            exc = make_exc(job._outcome, job._vid)
+        if exc is not None:
+            job._raised = exc
+            raise exc
+        return 0
+
+    for cls in (jobmod.PullRequestJob, jobmod.CommitJob, jobmod.APIJob):
+        B.set_callback(cls, handler)
+    roots = [BertE.put_job.__code__, BertE.process_task.__code__, BertE.process.__code__]
+    return dict(BertE=BertE, B=B, jobmod=jobmod, ex=ex, roots=roots)
+
+
+# ---------------------------------------------------------------------------------------- probe instance
+
+def _logged(base, name, label):
+    def method(self, *a, **k):
+        self._probe.log(label, a[0] if a else None)
+        return getattr(base, name)(self, *a, **k)
+    method.__name__ = name
+    return method
+
+
+class _ProbePending(deque):
+    """task_queue.queue of a probe instance: notes every look at the waiting jobs."""
+    _probe = None
+
+
+for _n in ('__contains__', '__iter__', 'count', 'index'):
+    setattr(_ProbePending, _n, _logged(deque, _n, 'scan'))
+
+
+class _ProbeDone(deque):
+    """tasks_done of a probe instance: notes every mutation."""
+    _probe = None
+
+
+setattr(_ProbeDone, 'appendleft', _logged(deque, 'appendleft', 'record'))
+for _n in ('append', 'extend', 'extendleft', 'insert', 'pop', 'popleft', 'remove', 'clear', 'rotate', 'reverse',
+           '__delitem__', '__setitem__', '__iadd__'):
+    setattr(_ProbeDone, _n, _logged(deque, _n, 'tasks_done.' + _n))
+
+
+class _ProbeStatus(dict):
+    """status of a probe instance: notes every mutation; storing / removing the 'current job' marker are the
+    model's `set` / `clear` whichever spelling is used (d[k] = v; d.pop(k[, default]) or del d[k])."""
+    _probe = None
+
+    def __setitem__(self, k, v):
+        self._probe.log('set' if k == 'current job' else 'status[%r]=' % (k,), v)
+        dict.__setitem__(self, k, v)
+
+    def pop(self, k, *d):
+        self._probe.log('clear' if k == 'current job' else 'status.pop(%r)' % (k,))
+        return dict.pop(self, k, *d)
+
+    def __delitem__(self, k):
+        self._probe.log('clear' if k == 'current job' else 'del status[%r]' % (k,))
+        dict.__delitem__(self, k)
+
+
+for _n in ('clear', 'popitem', 'update', 'setdefault', '__ior__'):
+    setattr(_ProbeStatus, _n, _logged(dict, _n, 'status.' + _n))
+del _n
+
+
+class _Probe(object):
+    """One BertE instance built with __new__ (no network, no git) whose shared collections note every use,
+    together with the /repo functions it was made from (helpers between put_job / process_task / process and
+    the operation)."""
+    helpers = set()            # code objects of /repo functions inside which an observable step happened
+
+    def __init__(self, backtrace=True, maxlen=None):
+        cl = _classes()
+        self.cl, self.events = cl, []
+        self.roots = frozenset(cl['roots'])
+        b = self.b = cl['B'].__new__(cl['B'])
+        b.settings = _Settings(backtrace=backtrace, quiet=True, pull_request_base_url='http://pr/{pr_id}',
+                               commit_base_url='http://c/{commit_id}')
+        b.project_repo = SimpleNamespace(full_name='owner/repo')
+        b.git_repo = SimpleNamespace(reset=lambda: None)
+        q = b.task_queue = _queue.Queue()
+        q.queue = _ProbePending()
+        q.queue._probe = self
+        b.tasks_done = _ProbeDone(maxlen=maxlen)
+        b.tasks_done._probe = self
+        b.status = _ProbeStatus()
+        b.status._probe = self
+        real_put, real_get, real_done = q.put, q.get, q.task_done
+        self.real_put = real_put
+
+        def put(item, *a, **k):
+            self.log('put', item)
+            return real_put(item, *a, **k)
+
+        def get(*a, **k):
+            item = real_get(False)
+            self.log('get', item)
+            return item
+
+        def task_done():
+            self.log('task_done')
+            return real_done()
+        q.put, q.get, q.task_done = put, get, task_done
+
+    def log(self, op, arg=None):
+        codes, f = [], sys._getframe(2)
+        while f is not None:
+            codes.append(f.f_code)
+            f = f.f_back
+        outer = max([i for i, c in enumerate(codes) if c in self.roots], default=None)
+        if outer is not None and op in _OBSERVABLE:
+            _Probe.helpers.update(c for c in codes[:outer] if _in_repo(c) and c not in self.roots)
+        self.events.append((op, arg))
+
+    def job(self, kind, key=1, repo=None, cls=None):
+        jm = self.cl['jobmod']
+        kw = {'bert_e': self.b}
+        if repo is not None:
+            kw['project_repo'] = SimpleNamespace(full_name=repo)
+        if kind == 'P':
+            j = (cls or jm.PullRequestJob)(pull_request=SimpleNamespace(id=key, author='dev'), **kw)
+        elif kind == 'C':
+            j = (cls or jm.CommitJob)(commit='%040x' % key, **kw)
         else:
-            raise ValueError('put_job: test refers to %s' % '.'.join(chain))
+            j = (cls or jm.APIJob)(kwargs={}, user='admin', settings={}, **kw)
+        j._vid, j._outcome, j._exc, j._probe = 0, 'ret', None, self
+        real_complete = j.complete
 
-    def walk(t):
-        if isinstance(t, ast.BoolOp) and isinstance(t.op, ast.And):
-            for v in t.values:
-                walk(v)
-        elif isinstance(t, ast.Compare) and len(t.ops) == 1 and isinstance(t.ops[0], (ast.NotIn, ast.NotEq)) \
-                and getattr(t.left, 'id', None) == jobvar:
-            for n in ast.walk(t.comparators[0]):
-                if isinstance(n, ast.Attribute):
-                    ch = _attr_chain(n)
-                    if ch and ch[0] == 'self':
-                        add(ch)
-                        break
-            else:
-                raise ValueError('put_job: comparison with something that is not on self')
-        else:
-            raise ValueError('put_job: unexpected test ' + ast.dump(t)[:120])
-    walk(iff.test)
-    if isinstance(iff.test, ast.Compare) and not isinstance(iff.test.ops[0], ast.NotIn):
-        raise ValueError('put_job: expected `job not in ...`')
+        def complete():
+            self.log('complete', j)
+            return real_complete()
+        j.complete = complete
+        return j
+
+    def state(self):
+        b = self.b
+        return (list(deque.__iter__(b.task_queue.queue)), dict.get(b.status, 'current job'), list(b.tasks_done))
+
+
+@contextlib.contextmanager
+def _isinstance_calls(log):
+    """While the real code runs: every isinstance(<an exception object>, classinfo) made by /repo code."""
+    import builtins
+    real = builtins.isinstance
+
+    def spy(obj, classinfo):
+        r = real(obj, classinfo)
+        if real(obj, BaseException) and _in_repo(sys._getframe(1).f_code):
+            log.append((obj, classinfo))
+        return r
+    builtins.isinstance = spy
+    try:
+        yield
+    finally:
+        builtins.isinstance = real
+
+
+def _flat_classinfo(ci):
+    if isinstance(ci, tuple):
+        out = []
+        for c in ci:
+            out += _flat_classinfo(c) or [None]
+        return None if None in out else out
+    if isinstance(ci, type):
+        return [ci]
+    import typing
+    args = typing.get_args(ci)                 # A | B
+    return _flat_classinfo(tuple(args)) if args else None
+
+
+# ---------------------------------------------------------------------------------------- raw observations
+
+_MESSAGES = (('probe message',), (), ('first line\nsecond line\n\nlast line',))
+
+
+def _exception_domain(ex):
+    """Probe classes: both sides of Exception among the builtins, every exception class the live
+    bert_e.exceptions module holds, and a fresh subclass of each (no class is special by its name)."""
+    dom = [BaseException, Exception, KeyboardInterrupt, SystemExit, GeneratorExit, KeyError, ValueError, RuntimeError,
+           OSError, ConnectionError, AssertionError, TimeoutError, IndexError, AttributeError, TypeError]
+    for c in vars(ex).values():
+        if isinstance(c, type) and issubclass(c, BaseException) and c not in dom:
+            dom.append(c)
+    return dom + [type('Probe_' + c.__name__, (c,), {}) for c in dom]
+
+
+def _new_exc(cls, args):
+    # BaseException.__new__ stores the arguments; __init__ (templates to render, required arguments) is not run
+    return cls.__new__(cls, *args)
+
+
+def _canon_probe(j, exc, how, raised):
+    """Outcome of one process_task probe in the alphabet of the model: ret|esc : status details."""
+    if j.status == '':
+        st = 'u'
+    elif exc is not None and j.status == type(exc).__name__:
+        st = 't'
+    else:
+        st = 'x'
+    try:
+        text = str(exc)
+    except Exception:
+        text = None
+    if j.details is None:
+        dt = 'n'
+    elif st == 't' and text is not None and j.details == text:
+        dt = 's'
+    elif j.details == '':
+        dt = 'u'
+    else:
+        dt = 'x'
+    if how == 'ret':
+        return 'ret:' + st + dt
+    if raised is exc and exc is not None:
+        return 'esc:' + st + dt
+    return 'raised-%s:%s%s' % (type(raised).__name__, st, dt)
+
+
+def _probe_task(exc, backtrace, kind='P'):
+    """process_task on an instance whose only waiting job ends with `exc` (None: returns normally)."""
+    p = _Probe(backtrace)
+    j = p.job(kind)
+    j._exc = exc
+    p.real_put(j)
+    calls = []
+    how, raised = 'ret', None
+    with _isinstance_calls(calls):
+        try:
+            ret = p.b.process_task()
+            if ret is not j:
+                how = 'ret-other'
+        except BaseException as e:      # noqa: the probe raises KeyboardInterrupt & co on purpose
+            how, raised = 'esc', e
+    pend, cur, done = p.state()
+    ops = [op for op, _ in p.events]
+    shape_ok = (sorted(ops) == sorted(('get', 'set', 'handle') + _FIN) and ops[0] == 'get'
+                and ops.index('set') < ops.index('handle') < min(ops.index(f) for f in _FIN)
+                and [a for op, a in p.events if op in ('get', 'set', 'record')] == [j, j, j]
+                and pend == [] and cur is None and done == [j] and p.b.task_queue.unfinished_tasks == 0)
+    return {'code': _canon_probe(j, exc, how, raised), 'ops': ops, 'shape_ok': shape_ok,
+            'fin': [op for op in ops if op in _FIN],
+            'isinstance': [ci for obj, ci in calls if obj is exc]}
+
+
+def _probe_process(exc, backtrace):
+    """BertE.process on a job whose handler ends with `exc`: 'ret' | 'same' (that very object leaves) | other."""
+    p = _Probe(backtrace)
+    j = p.job('P')
+    j._exc = exc
+    try:
+        p.b.process(j)
+        return 'ret'
+    except BaseException as e:          # noqa
+        return 'same' if e is exc else 'raised-' + type(e).__name__
+
+
+def _probe_put(kind, where, order):
+    """put_job(e) on an instance that holds a job equal to e exactly in the collections `where` (and an unequal
+    one everywhere).  order: 'old' = the equal job was created (and, in tasks_done, finished) before e was
+    created, 'new' = after.  Returns 'put' | 'skip' | a description of anything else."""
+    from datetime import datetime, timedelta
+    p = _Probe(True)
+    t0 = datetime(2020, 1, 1)
+    others = [p.job(kind if kind != 'A' else 'P', key=7 + i) for i in range(3)]
+    e = p.job(kind, key=1)
+    eq = e if kind == 'A' else p.job(kind, key=1)          # API jobs: equal = the same object
+    first, second = (eq, e) if order == 'old' else (e, eq)
+    if first is not second:
+        first.start_time, second.start_time = t0, t0 + timedelta(seconds=10)
+    for o in others:
+        o.start_time = t0 - timedelta(seconds=30)
+    p.real_put(others[0])
+    if 'pending' in where:
+        p.real_put(eq)
+    dict.__setitem__(p.b.status, 'current job', eq if 'current' in where else others[1])
+    others[2].end_time = t0 - timedelta(seconds=20)
+    deque.appendleft(p.b.tasks_done, others[2])
+    if 'done' in where:
+        if eq is not e or order == 'old':
+            eq.end_time = eq.start_time + timedelta(seconds=5)
+        deque.appendleft(p.b.tasks_done, eq)
+    before = p.state()
+    try:
+        p.b.put_job(e)
+    except BaseException as x:          # noqa
+        return 'raised-' + type(x).__name__
+    after = p.state()
+    puts = [a for op, a in p.events if op == 'put']
+    if after == before and not puts:
+        return 'skip'
+    if after == (before[0] + [e], before[1], before[2]) and len(puts) == 1 and puts[0] is e:
+        return 'put'
+    return 'changed-state'
+
+
+@_cached
+def _observations():
+    """All the probes of put_job / process_task / process, raw (nothing is judged here)."""
+    cl = _classes()
+    dom = _exception_domain(cl['ex'])
+    task, proc = {}, {}
+    for bt in (False, True):
+        task[None, (), bt] = _probe_task(None, bt)
+        for kind in 'CA':
+            task[None, (kind,), bt] = _probe_task(None, bt, kind)
+        for cls in dom:
+            for args in _MESSAGES:
+                task[cls, args, bt] = _probe_task(_new_exc(cls, args), bt)
+            proc[cls, bt] = _probe_process(_new_exc(cls, _MESSAGES[0]), bt)
+    put = {}
+    for kind in 'PCA':
+        for n in range(8):
+            where = tuple(s for i, s in enumerate(_SCOPES) if n >> i & 1)
+            for order in ('old', 'new'):
+                put[kind, where, order] = _probe_put(kind, where, order)
+    return dict(domain=dom, task=task, process=proc, put=put)
+
+
+# ---------------------------------------------------------------------------------------- derived facts
+
+def _under(cls, bases):
+    return any(b in cls.__mro__ for b in bases)
+
+
+def _roots(members):
+    """The classes of `members` none of whose proper ancestors is a member."""
+    ms = set(members)
+    return sorted([c for c in ms if not any(a in ms for a in c.__mro__[1:])], key=lambda c: c.__name__)
+
+
+def _class_names(classes, dom, what):
+    names = [c.__name__ for c in classes]
+    every = set()
+    for c in dom:
+        every.update(c.__mro__)
+    for c in classes:
+        if [d.__name__ for d in every].count(c.__name__) != 1:
+            raise ValueError('%s: class name %s is not unique among the probe classes' % (what, c.__name__))
+    return names
+
+
+def _dedup_scope(obs):
+    """Which shared collections make put_job drop a request when they hold an equal job."""
+    put = obs['put']
+    scope = [s for s in _SCOPES if put['P', (s,), 'old'] == 'skip']
+    for (kind, where, order), got in sorted(put.items()):
+        want = 'skip' if any(s in scope for s in where) else 'put'
+        if got != want:
+            raise ValueError('put_job: with an equal %s job (%s) in %s the request ends in %r, but %r when it is '
+                             'judged from the single collections %s: not a plain membership test'
+                             % (kind, order, list(where) or 'no collection', got, want, scope))
     return scope
 
 
-def _process_task_facts(fn):
-    body = [s for s in fn.body if not (isinstance(s, ast.Expr) and isinstance(s.value, ast.Constant))]
-    if len(body) != 3 or not isinstance(body[0], ast.Assign) or not isinstance(body[1], ast.Try) \
-            or not isinstance(body[2], ast.Return):
-        raise ValueError('process_task: expected `job = ... = get()`, try, return')
-    first = body[0]
-    tg = [(_attr_chain(t) or ast.dump(t)[:60]) if not isinstance(t, ast.Subscript) else 'status[...]'
-          for t in first.targets]
-    has_cur = any(isinstance(t, ast.Subscript) and _attr_chain(t.value) == ['self', 'status']
-                  and getattr(t.slice, 'value', None) == 'current job' for t in first.targets)
-    names = [t.id for t in first.targets if isinstance(t, ast.Name)]
-    if len(names) != 1:
-        raise ValueError('process_task: the job is not bound to one local name')
-    jobvar = names[0]
-    if not (has_cur and isinstance(first.value, ast.Call)
-            and _attr_chain(first.value.func) == ['self', 'task_queue', 'get'] and not first.value.args):
-        raise ValueError("process_task: first statement is not job = self.status['current job'] = self.task_queue.get()")
-    tr = body[1]
-    if len(tr.body) != 1 or not (isinstance(tr.body[0], ast.Expr) and isinstance(tr.body[0].value, ast.Call)
-                                 and _attr_chain(tr.body[0].value.func) == ['self', 'process']
-                                 and [getattr(a, 'id', None) for a in tr.body[0].value.args] == [jobvar]):
-        raise ValueError('process_task: try body is not self.process(job)')
-    if tr.orelse:
-        raise ValueError('process_task: unexpected else clause')
-    if len(tr.handlers) != 1:
-        raise ValueError('process_task: expected exactly one except clause')
-    h = tr.handlers[0]
-    caught = _names(h.type) if h.type is not None else ['BaseException']
-    # handler body: status = type(err).__name__ ; details = None ; if not isinstance(err, T1): details=str elif isinstance(err, T2): details=str
-    status_typename, details_none, none_bases, str_bases = False, False, None, None
-    for st in h.body:
-        if isinstance(st, ast.Assign) and _attr_chain(st.targets[0]) == [jobvar, 'status']:
-            v = st.value
-            if (isinstance(v, ast.Attribute) and v.attr == '__name__' and isinstance(v.value, ast.Call)
-                    and getattr(v.value.func, 'id', '') == 'type' and getattr(v.value.args[0], 'id', '') == h.name):
-                status_typename = True
-            else:
-                raise ValueError('process_task: job.status is not type(err).__name__')
-        elif isinstance(st, ast.Assign) and _attr_chain(st.targets[0]) == [jobvar, 'details']:
-            if isinstance(st.value, ast.Constant) and st.value.value is None:
-                details_none = True
-            else:
-                raise ValueError('process_task: unexpected top-level job.details assignment')
-        elif isinstance(st, ast.If):
-            def isinst(t):
-                if (isinstance(t, ast.Call) and getattr(t.func, 'id', '') == 'isinstance'
-                        and getattr(t.args[0], 'id', '') == h.name):
-                    return _names(t.args[1])
-                raise ValueError('process_task: unexpected condition ' + ast.dump(t)[:100])
-
-            def sets_str(stmts):
-                got = False
-                for s in stmts:
-                    if _is_log_call(s):
-                        continue
-                    if (isinstance(s, ast.Assign) and _attr_chain(s.targets[0]) == [jobvar, 'details']
-                            and isinstance(s.value, ast.Call) and getattr(s.value.func, 'id', '') == 'str'
-                            and getattr(s.value.args[0], 'id', '') == h.name):
-                        got = True
-                    else:
-                        raise ValueError('process_task: unexpected statement in details branch')
-                return got
-            if not (isinstance(st.test, ast.UnaryOp) and isinstance(st.test.op, ast.Not)):
-                raise ValueError('process_task: expected `if not isinstance(...)`')
-            none_bases = isinst(st.test.operand)
-            if not sets_str(st.body):
-                raise ValueError('process_task: details not set for arbitrary exceptions')
-            if len(st.orelse) == 1 and isinstance(st.orelse[0], ast.If) and not st.orelse[0].orelse:
-                str_bases = isinst(st.orelse[0].test)
-                if not sets_str(st.orelse[0].body):
-                    raise ValueError('process_task: elif branch does not set details')
-            elif not st.orelse:
-                str_bases = []
-            else:
-                raise ValueError('process_task: unexpected else branch')
-        elif _is_log_call(st):
-            continue
-        else:
-            raise ValueError('process_task: unexpected statement in except clause: ' + ast.dump(st)[:100])
-    if not (status_typename and details_none and none_bases is not None):
-        raise ValueError('process_task: except clause does not set status/details as expected')
-    fin = []
-    for st in tr.finalbody:
-        if _is_log_call(st):
-            continue
-        if not (isinstance(st, ast.Expr) and isinstance(st.value, ast.Call)):
-            raise ValueError('process_task: unexpected statement in finally: ' + ast.dump(st)[:100])
-        ch = _attr_chain(st.value.func)
-        args = st.value.args
-        if ch == [jobvar, 'complete'] and not args:
-            fin.append('complete')
-        elif ch == ['self', 'task_queue', 'task_done'] and not args:
-            fin.append('task_done')
-        elif ch == ['self', 'tasks_done', 'appendleft'] and [getattr(a, 'id', None) for a in args] == [jobvar]:
-            fin.append('record')
-        elif ch == ['self', 'status', 'pop'] and len(args) == 1 and getattr(args[0], 'value', None) == 'current job':
-            fin.append('clear')
-        else:
-            raise ValueError('process_task: unexpected call in finally: ' + ast.dump(st)[:100])
-    for need in ('complete', 'task_done', 'record', 'clear'):
-        if fin.count(need) != 1:
-            raise ValueError('process_task: `%s` is not (exactly once) in the finally block' % need)
-    if getattr(body[2].value, 'id', None) != jobvar:
-        raise ValueError('process_task: does not return job')
-    return caught, none_bases, str_bases, fin
-
-
-def _process_facts(tree):
-    fn = _method(tree, 'BertE', 'process')
-    trs = [s for s in fn.body if isinstance(s, ast.Try)]
-    if len(trs) != 1 or trs[0].finalbody or trs[0].orelse:
-        raise ValueError('process: expected one try without finally/else')
-    tr = trs[0]
-    if not (len(tr.body) == 1 and isinstance(tr.body[0], ast.Return) and isinstance(tr.body[0].value, ast.Call)
-            and _attr_chain(tr.body[0].value.func) == ['self', 'dispatch']):
-        raise ValueError('process: try body is not return self.dispatch(job)')
-    to_error, reraise = [], []
-    for h in tr.handlers:
-        names = _names(h.type)
-        calls_err = any(isinstance(n, ast.Call) and _attr_chain(n.func) == ['self', '_process_error']
-                        for s in h.body for n in ast.walk(s))
-        ends_raise = isinstance(h.body[-1], ast.Raise) and h.body[-1].exc is None
-        if calls_err and not ends_raise:
-            to_error += names
-        elif ends_raise and not calls_err:
-            reraise += names
-        else:
-            raise ValueError('process: unexpected except clause for %s' % names)
-    pe = _method(tree, 'BertE', '_process_error')
-    f0 = pe.body[0]
-    raises_bt = (isinstance(f0, ast.If) and _attr_chain(f0.test) == ['self', 'settings', 'backtrace']
-                 and len(f0.body) == 1 and isinstance(f0.body[0], ast.Raise)
-                 and getattr(f0.body[0].exc, 'id', None) == pe.args.args[1].arg)
-    if not raises_bt:
-        raise ValueError('_process_error: does not start with `if self.settings.backtrace: raise error`')
-    if any(isinstance(n, ast.Raise) for s in pe.body[1:] for n in ast.walk(s)):
-        raise ValueError('_process_error: raises outside the backtrace branch')
+def _process_facts(obs):
+    """BertE.process: classes that end in a normal return unless settings.backtrace (model: _process_error),
+    classes that leave it as they are."""
+    dom, proc = obs['domain'], obs['process']
+    for (cls, bt), got in proc.items():
+        if got not in ('ret', 'same') or (bt and got != 'same'):
+            raise ValueError('process: a handler raising %s ends in %r (backtrace=%s)' % (cls.__name__, got, bt))
+    to_error = _roots([c for c in dom if proc[c, False] == 'ret'])
+    exc_dom = [c for c in dom if issubclass(c, Exception)]
+    reraise = _roots([c for c in exc_dom if proc[c, False] == 'same'])
+    for c in dom:
+        if (proc[c, False] == 'ret') != _under(c, to_error):
+            raise ValueError('process: the classes turned into a return value are not a union of subtrees (%s)' % c.__name__)
+    for c in exc_dom:
+        if (proc[c, False] == 'same') != (not _under(c, to_error) and _under(c, reraise)):
+            raise ValueError('process: the classes re-raised are not a union of subtrees (%s)' % c.__name__)
     return to_error, reraise
 
 
-def _server_backtrace():
-    tree = _parse('bert_e/server/__init__.py')
-    for node in ast.walk(tree):
-        if isinstance(node, ast.FunctionDef) and node.name == 'setup_bert_e':
-            for st in ast.walk(node):
-                if (isinstance(st, ast.Assign) and isinstance(st.targets[0], ast.Subscript)
-                        and getattr(st.targets[0].slice, 'value', None) == 'backtrace'):
-                    if isinstance(st.value, ast.Constant) and isinstance(st.value.value, bool):
-                        return st.value.value
-                    raise ValueError('setup_bert_e: backtrace is not a literal bool')
-            return None
-    raise ValueError('setup_bert_e not found')
+def _expected_task(cls, bt, to_error, caught, none_bases, str_bases):
+    """What Model/Dispatcher.v (effective / caught / status_of / escapes) says of a job ending with `cls`."""
+    if cls is None or (_under(cls, to_error) and not bt):
+        return 'ret:uu'
+    if not _under(cls, caught):
+        return 'esc:uu'
+    if not _under(cls, none_bases) or _under(cls, str_bases):
+        return 'ret:ts'
+    return 'ret:tn'
 
 
-def _worker_loop_ok():
-    """bert_e_launcher: `while True: bert_e.process_task()` and nothing else."""
-    tree = _parse('bert_e/server/__init__.py')
-    for node in ast.walk(tree):
-        if isinstance(node, ast.FunctionDef) and node.name == 'bert_e_launcher':
-            body = [s for s in node.body if not (isinstance(s, ast.Expr) and isinstance(s.value, ast.Constant))]
-            if (len(body) == 1 and isinstance(body[0], ast.While) and isinstance(body[0].test, ast.Constant)
-                    and body[0].test.value is True and len(body[0].body) == 1
-                    and isinstance(body[0].body[0], ast.Expr) and isinstance(body[0].body[0].value, ast.Call)
-                    and _attr_chain(body[0].body[0].value.func) == ['bert_e', 'process_task']):
-                return True
-            raise ValueError('bert_e_launcher is not `while True: bert_e.process_task()`')
-    raise ValueError('bert_e_launcher not found')
+def _process_task_facts(obs, to_error):
+    dom, task = obs['domain'], obs['task']
+    fins = set()
+    for (cls, args, bt), r in task.items():
+        who = 'a job that %s (backtrace=%s)' % ('returns' if cls is None else 'raises %s%r' % (cls.__name__, args), bt)
+        if not r['shape_ok']:
+            raise ValueError('process_task: %s: expected get, marker set, handler, then complete / task_done / '
+                             'tasks_done.appendleft / marker removed exactly once each; observed %s' % (who, r['ops']))
+        if r['code'] not in ('ret:uu', 'ret:tn', 'ret:ts', 'esc:uu'):
+            raise ValueError('process_task: %s ends in %s, which the model cannot express' % (who, r['code']))
+        fins.add(tuple(r['fin']))
+    if len(fins) != 1:
+        raise ValueError('process_task: the order of the final calls depends on the outcome: %s' % sorted(fins))
+    fin = list(fins.pop())
+    code = {}
+    for (cls, args, bt), r in task.items():
+        if cls is not None and code.setdefault((cls, bt), r['code']) != r['code']:
+            raise ValueError('process_task: the outcome for %s depends on the message of the exception' % cls.__name__)
+    # with backtrace everything leaves process: the except clause of process_task alone decides
+    caught = _roots([c for c in dom if code[c, True].startswith('ret:t')])
+    handled = [c for c in dom if _under(c, caught)]
+    none_set = [c for c in handled if code[c, True] == 'ret:tn']
+    # candidate class tuples: the ones the code itself hands to isinstance(err, ...), in the order met;
+    # then the minimal ones that describe the observed grid
+    cands = []
+    for key in sorted(task, key=lambda k: (k[2], '' if k[0] is None else k[0].__name__, k[1])):
+        for ci in task[key]['isinstance']:
+            flat = _flat_classinfo(ci)
+            if flat and flat not in cands:
+                cands.append(flat)
+    fallback_none = _roots(none_set)
+    choice = None
+    for t1 in cands + [fallback_none]:
+        inner_str = _roots([c for c in handled if _under(c, t1) and code[c, True] == 'ret:ts'])
+        for t2 in cands + [inner_str, []]:
+            if all(_expected_task(c, bt, to_error, caught, t1, t2) == code[c, bt] for c in dom for bt in (False, True)):
+                choice = (t1, t2)
+                break
+        if choice:
+            break
+    if choice is None:
+        bad = [(c.__name__, bt, code[c, bt]) for c in dom for bt in (False, True)
+               if _expected_task(c, bt, to_error, caught, fallback_none, []) != code[c, bt]][:4]
+        raise ValueError('process_task: status / details of the recorded job are not a function of the class of the '
+                         'exception of the form the model has (e.g. %s)' % (bad,))
+    for key in [k for k in task if k[0] is None]:
+        if task[key]['code'] != 'ret:uu':
+            raise ValueError('process_task: a job that returns normally ends in %s' % task[key]['code'])
+    return caught, choice[0], choice[1], fin
+
+
+@_cached
+def _observed_server():
+    """The real setup_bert_e run with stand-ins for setup_settings and BertE, the worker thread created but not
+    started (Thread.start only notes the thread): the value of settings.backtrace the worker runs with, and
+    what the worker does when its run() is then called here (process_task for ever, dies with the first
+    exception that leaves it)."""
+    import threading
+    import warnings
+    cl = _classes()
+    with warnings.catch_warnings():
+        warnings.simplefilter('ignore')
+        from bert_e import server as srv
+    from bert_e import settings as settings_mod, bert_e as bmod
+    from bert_e.lib.settings_dict import SettingsDict
+
+    class StopLoop(BaseException):
+        pass
+
+    def one_run(script):
+        rec = {'instances': [], 'threads': []}
+
+        class FakeBertE(object):
+            def __init__(self, settings, *a, **k):
+                self.settings, self.script, self.calls, self.touched = settings, list(script), 0, []
+                rec['instances'].append(self)
+
+            def process_task(self):
+                self.calls += 1
+                if not self.script:
+                    raise StopLoop()
+                act = self.script.pop(0)
+                if act is None:
+                    return SimpleNamespace()
+                raise act
+
+            def __getattr__(self, name):
+                if name.startswith('__'):
+                    raise AttributeError(name)
+                self.touched.append(name)
+                raise AttributeError(name)
+
+        def fake_settings(*a, **k):     # what setup_settings returns: a SettingsDict, backtrace defaults to False
+            return SettingsDict({'backtrace': False, 'repository_host': 'mock', 'repository_owner': 'owner',
+                                 'repository_slug': 'repo'})
+
+        def backtrace():
+            return [getattr(i.settings, 'backtrace', None) for i in rec['instances']]
+
+        def fake_start(thread):
+            rec['threads'].append((thread, backtrace()))
+
+        root = logging.getLogger()
+        saved_handlers, saved_level = root.handlers[:], root.level
+        saved_filters = [(h, h.filters[:]) for h in saved_handlers]
+        real_start = threading.Thread.start
+        threading.Thread.start = fake_start
+        try:
+            with _swapped([(settings_mod.setup_settings, fake_settings), (cl['BertE'], FakeBertE)],
+                          [srv, settings_mod, bmod]):
+                srv.setup_bert_e('/nonexistent/settings.yml', False)
+        finally:
+            threading.Thread.start = real_start
+            root.handlers[:] = saved_handlers
+            root.setLevel(saved_level)
+            for h, fl in saved_filters:
+                h.filters[:] = fl
+        if len(rec['instances']) != 1 or len(rec['threads']) != 1:
+            raise ValueError('setup_bert_e: expected one BertE instance and one worker thread started, observed %d '
+                             'and %d' % (len(rec['instances']), len(rec['threads'])))
+        inst, (th, bt_start) = rec['instances'][0], rec['threads'][0]
+        bt = backtrace()[0]
+        if not isinstance(bt, bool) or bt_start != [bt]:
+            raise ValueError('setup_bert_e: settings.backtrace is %r when the worker starts, %r afterwards'
+                             % (bt_start, bt))
+        # the worker: `while True: bert_e.process_task()` and nothing else
+        last = script[-1]
+        try:
+            th.run()
+            end = 'returned'
+        except BaseException as e:      # noqa
+            end = 'same' if e is last else 'raised-' + type(e).__name__
+        if end != 'same' or inst.calls != len(script) or inst.touched:
+            raise ValueError('bert_e_launcher is not `while True: bert_e.process_task()`: a worker whose process_task '
+                             'raises at call %d ended with %s after %d calls, other attributes used: %s'
+                             % (len(script), end, inst.calls, inst.touched))
+        return bt
+    bts = {one_run([None] * 40 + [KeyError('boom')]), one_run([ConnectionError()])}
+    if len(bts) != 1:
+        raise ValueError('setup_bert_e: settings.backtrace differs between two runs')
+    return {'backtrace': bts.pop()}
+
+
+@_cached
+def _observed_init():
+    """The real BertE.__init__ run with stand-ins for the git host client and the local repository: what
+    task_queue, tasks_done and status are at start-up."""
+    cl = _classes()
+    from bert_e import bert_e as bmod, git_host
+    from bert_e.lib import git as libgit
+    from bert_e.workflow import gitwaterflow as gwf
+    from bert_e.workflow.gitwaterflow import commands
+    settings = _LooseSettings(repository_host='mock', repository_owner='owner', repository_slug='repo',
+                              robot_password='pw', robot_email='robot@example.com', disable_queues=False,
+                              cmd_line_options=[])
+    b = cl['BertE'].__new__(cl['BertE'])
+    with _swapped([(git_host.client_factory, _Loose()), (libgit.Repository, _Loose()),
+                   (commands.setup, lambda *a, **k: None)], [bmod, git_host, libgit, gwf, commands]):
+        cl['BertE'].__init__(b, settings)
+    tq, td, st = b.task_queue, b.tasks_done, b.status
+    if type(tq) is not _queue.Queue or tq.maxsize > 0 or tq.qsize() != 0:
+        raise ValueError('BertE.__init__: task_queue is not Queue()')
+    if type(st) is not dict or st:
+        raise ValueError('BertE.__init__: status is not {}')
+    if type(td) is not deque or len(td) != 0:
+        raise ValueError('BertE.__init__: tasks_done is not deque(...)')
+    return {'maxlen': td.maxlen}
 
 
 def _eq_facts():
-    tree = _parse('bert_e/job.py')
-    out = []
-    classes = [n for n in tree.body if isinstance(n, ast.ClassDef)]
-    job_classes = {}
-    for c in classes:       # classes deriving (transitively) from Job, in file order
-        bases = [getattr(b, 'id', None) for b in c.bases]
-        if c.name == 'Job' or any(b in job_classes for b in bases):
-            job_classes[c.name] = c
-    key_attr = {'PullRequestJob': ['pull_request', 'id'], 'CommitJob': ['commit']}
-    for name, c in job_classes.items():
-        eq = [n for n in c.body if isinstance(n, ast.FunctionDef) and n.name in ('__eq__', '__ne__', '__hash__')]
-        if not eq:
+    """Job classes with an __eq__ of their own and what it compares (observed on pairs of jobs); every other job
+    class compares by identity."""
+    cl = _classes()
+    jm = cl['jobmod']
+    for name, _ in _KIND_OF:
+        if not isinstance(getattr(jm, name, None), type):
+            raise ValueError('job.py: class %s not found' % name)
+    keyed = {'PullRequestJob': ('P', 'pull_request'), 'CommitJob': ('C', 'commit')}
+
+    def provider(c):
+        return next(k for k in c.__mro__ if '__eq__' in vars(k))
+
+    def subclasses(c):
+        out = [c]
+        for s in c.__subclasses__():
+            out += [x for x in subclasses(s) if x not in out]
+        return out
+    for c in subclasses(jm.Job):
+        if not (c.__module__ or '').startswith('bert_e'):
             continue
-        if name not in key_attr or [n.name for n in eq] != ['__eq__']:
-            raise ValueError('job.py: unexpected comparison methods on %s' % name)
-        fn = eq[0]
-        other = fn.args.args[1].arg
-        if len(fn.body) != 1 or not isinstance(fn.body[0], ast.Return):
-            raise ValueError('%s.__eq__: not a single return' % name)
-        v = fn.body[0].value
-        conj = v.values if (isinstance(v, ast.BoolOp) and isinstance(v.op, ast.And)) else [v]
-        fields = []
-        for t in conj:
-            if (isinstance(t, ast.Call) and getattr(t.func, 'id', '') == 'isinstance'
-                    and getattr(t.args[0], 'id', '') == other and getattr(t.args[1], 'id', '') == name):
-                fields.append('isinstance')
-            elif isinstance(t, ast.Compare) and len(t.ops) == 1 and isinstance(t.ops[0], ast.Eq):
-                l, r = _attr_chain(t.left), _attr_chain(t.comparators[0])
-                if not l or not r or l[0] != 'self' or r[0] != other or l[1:] != r[1:]:
-                    raise ValueError('%s.__eq__: unexpected comparison' % name)
-                if l[1:] == ['project_repo', 'full_name']:
-                    fields.append('repo')
-                elif l[1:] == key_attr[name]:
-                    fields.append('key')
-                else:
-                    raise ValueError('%s.__eq__: compares %s' % (name, '.'.join(l[1:])))
-            else:
-                raise ValueError('%s.__eq__: unexpected conjunct %s' % (name, ast.dump(t)[:80]))
-        if fields[:1] != ['isinstance']:
+        for k in c.__mro__[:-1]:
+            if '__ne__' in vars(k) or vars(k).get('__hash__') is not None:
+                raise ValueError('job.py: unexpected comparison methods on %s' % k.__name__)
+        if provider(c) is not object and not issubclass(c, tuple(getattr(jm, n) for n in keyed)):
+            raise ValueError('job.py: unexpected comparison methods on %s' % c.__name__)
+    out = []
+    p = _Probe(True)
+    for name, (kind, attr) in keyed.items():
+        K = getattr(jm, name)
+        if provider(K) is object:
+            continue
+        other_kind = 'C' if kind == 'P' else 'P'
+        a = p.job(kind, key=1, repo='owner/repo')
+
+        def partner(variant, repo_same, key_same):
+            repo = 'owner/repo' if repo_same else 'other/repo'
+            key = 1 if key_same else 2
+            if variant == 'same':
+                return p.job(kind, key=key, repo=repo)
+            if variant == 'sub':
+                return p.job(kind, key=key, repo=repo, cls=type('Sub' + name, (K,), {}))
+            model = p.job(kind, key=key, repo=repo)
+            if variant == 'otherjob':
+                b = p.job(other_kind, key=key, repo=repo)
+                setattr(b, attr, getattr(model, attr))
+                return b
+            return SimpleNamespace(project_repo=model.project_repo, **{attr: getattr(model, attr)})
+        grid = {}
+        for variant in ('same', 'sub', 'otherjob', 'duck'):
+            for repo_same in (True, False):
+                for key_same in (True, False):
+                    try:
+                        r = a.__eq__(partner(variant, repo_same, key_same))
+                    except Exception as e:
+                        r = 'raised-' + type(e).__name__
+                    if r is not True and r is not False:
+                        raise ValueError('%s.__eq__: compared with a %s object it gives %r' % (name, variant, r))
+                    grid[variant, repo_same, key_same] = r
+        has = {'isinstance': not grid['otherjob', True, True], 'repo': not grid['same', False, True],
+               'key': not grid['same', True, False]}
+        for (variant, repo_same, key_same), r in grid.items():
+            want = ((variant in ('same', 'sub') or not has['isinstance']) and (repo_same or not has['repo'])
+                    and (key_same or not has['key']))
+            if r != want:
+                raise ValueError('%s.__eq__: not the conjunction of %s (%s object, repository %s, key %s: %r)'
+                                 % (name, [f for f in has if has[f]], variant, 'same' if repo_same else 'different',
+                                    'same' if key_same else 'different', r))
+        # order of evaluation: what is read from the other object, and whether anything is read from a foreign one
+        seen = []
+
+        def spying(b):
+            vals = dict(vars(b))
+            props = {}
+            for field, at in (('repo', 'project_repo'), ('key', attr)):
+                def getter(self, field=field, at=at):
+                    if field not in seen:
+                        seen.append(field)
+                    return vals[at]
+                props[at] = property(getter)
+            for at in props:
+                vars(b).pop(at, None)
+            b.__class__ = type('Spy' + type(b).__name__, (type(b),), props)
+            return b
+        foreign = spying(partner('otherjob', True, True))
+        a.__eq__(foreign)
+        if seen or not has['isinstance']:
             raise ValueError('%s.__eq__: does not start with isinstance(other, %s)' % (name, name))
+        a.__eq__(spying(partner('same', True, True)))
+        fields = ['isinstance'] + [f for f in seen if has[f]] + [f for f in ('repo', 'key') if has[f] and f not in seen]
         out.append((name, fields))
-    for need in ('PullRequestJob', 'CommitJob', 'APIJob'):
-        if need not in job_classes:
-            raise ValueError('job.py: class %s not found' % need)
     return out
 
 
-def _maxlen():
-    fn = _method(_parse('bert_e/bert_e.py'), 'BertE', '__init__')
-    found = {}
-    for st in ast.walk(fn):
-        if isinstance(st, ast.Assign) and len(st.targets) == 1:
-            ch = _attr_chain(st.targets[0])
-            if ch in (['self', 'task_queue'], ['self', 'tasks_done'], ['self', 'status']):
-                found[ch[1]] = st.value
-    tq, td, stt = found.get('task_queue'), found.get('tasks_done'), found.get('status')
-    if not (isinstance(tq, ast.Call) and getattr(tq.func, 'id', '') == 'Queue' and not tq.args and not tq.keywords):
-        raise ValueError('BertE.__init__: task_queue is not Queue()')
-    if not (isinstance(stt, ast.Dict) and not stt.keys):
-        raise ValueError('BertE.__init__: status is not {}')
-    if not (isinstance(td, ast.Call) and getattr(td.func, 'id', '') == 'deque' and not td.args):
-        raise ValueError('BertE.__init__: tasks_done is not deque(...)')
-    ml = None
-    for kw in td.keywords:
-        if kw.arg == 'maxlen' and isinstance(kw.value, ast.Constant) and isinstance(kw.value.value, int):
-            ml = kw.value.value
-        else:
-            raise ValueError('BertE.__init__: unexpected deque argument')
-    return ml
+def _helper_codes():
+    """Functions of /repo, other than put_job / process_task / process, inside which a step of the model
+    happens (a helper the final calls or the membership test were moved to): the scheduler stops at their
+    lines too, so that every released segment still holds at most one step."""
+    _observations()
+    return sorted(_Probe.helpers, key=lambda c: (c.co_filename, c.co_firstlineno))
 
 
 def read_facts():
-    tree = _parse('bert_e/bert_e.py')
-    scope = _dedup_scope(_method(tree, 'BertE', 'put_job'))
-    caught, none_bases, str_bases, fin = _process_task_facts(_method(tree, 'BertE', 'process_task'))
-    to_error, reraise = _process_facts(tree)
-    _worker_loop_ok()
-    bt = _server_backtrace()
-    if bt is None:
-        bt = False
-    from bert_e import exceptions as ex
+    obs = _observations()
+    dom = obs['domain']
+    scope = _dedup_scope(obs)
+    to_error, reraise = _process_facts(obs)
+    caught, none_bases, str_bases, fin = _process_task_facts(obs, to_error)
+    bt = _observed_server()['backtrace']
+    ex = _classes()['ex']
     rep = {'silent': ex.SilentException, 'template': ex.TemplateException, 'internal': ex.InternalException,
            'jobfailure': ex.JobFailure, 'other': Exception}
     mro = [(k, [c.__name__ for c in cls.__mro__ if c is not object]) for k, cls in rep.items()]
-    return dict(scope=scope, caught=caught, none_bases=none_bases, str_bases=str_bases, fin=fin,
-                to_error=to_error, reraise=reraise, backtrace=bt, mro=mro, eq=_eq_facts(), maxlen=_maxlen())
+    names = lambda cs, what: _class_names(cs, dom, what)   # noqa: E731
+    return dict(scope=scope, caught=names(caught, 'caught'), none_bases=names(none_bases, 'details rule'),
+                str_bases=names(str_bases, 'details rule'), fin=fin, to_error=names(to_error, 'process'),
+                reraise=names(reraise, 'process'), backtrace=bt, mro=mro, eq=_eq_facts(),
+                maxlen=_observed_init()['maxlen'])
 
 
 def gen_facts(ctx):
@@ -449,10 +904,6 @@ Definition c13_done_maxlen : option nat := %s.
 
 # ======================================================================================== impl side
 
-class _Settings(dict):
-    __getattr__ = dict.__getitem__
-
-
 class _TracedDeque(deque):
     """task_queue.queue: same C implementation; __contains__ only notes where the scan begins and ends."""
     _sched = None
@@ -476,44 +927,19 @@ def _env():
     """Once per process: import bert_e, BertE subclass with stub handlers, traced code objects."""
     if _ENV:
         return _ENV
-    logging.disable(logging.CRITICAL)
-    from bert_e.bert_e import BertE
-    from bert_e import job as jobmod
-    from bert_e import exceptions as ex
-
-    class TemplateStub(ex.TemplateException):
-        def __init__(self):
-            Exception.__init__(self, 'template stub')
-
-    class B(BertE):
-        pass
-
-    def make_exc(kind, vid):
-        return {'silent': lambda: ex.SilentException('quiet'),
-                'template': TemplateStub,
-                'internal': lambda: ex.InternalException('internal'),
-                'jobfailure': lambda: ex.JobFailure('job failed'),
-                'other': lambda: KeyError('boom'),
-                'other_empty': EMPTY_MESSAGE_CLASSES[(vid * 7 + vid // 10) % len(EMPTY_MESSAGE_CLASSES)],
-                'other_multi': lambda: ValueError('first line\nsecond line\n\nlast line')}[kind]()
-
-    def handler(job):
-        job._handled = True
-        if job._outcome != 'ret':
-            job._raised = make_exc(job._outcome, job._vid)
-            raise job._raised
-        return 0
-
-    for cls in (jobmod.PullRequestJob, jobmod.CommitJob, jobmod.APIJob):
-        B.set_callback(cls, handler)
-    line_codes = [BertE.put_job.__code__, BertE.process_task.__code__, BertE.process.__code__]
+    cl = _classes()
+    jobmod = cl['jobmod']
     eq_codes = []
     for name in dir(jobmod):
         c = getattr(jobmod, name)
         if isinstance(c, type) and issubclass(c, jobmod.Job) and '__eq__' in c.__dict__:
             eq_codes.append(c.__dict__['__eq__'].__code__)
-    _ENV.update(B=B, jobmod=jobmod, ex=ex, line_codes=line_codes + eq_codes, eq_codes=eq_codes,
-                maxlen=_maxlen(), backtrace=bool(_server_backtrace()))
+    try:
+        helpers = [c for c in _helper_codes() if c not in eq_codes]
+    except Exception:       # the probes could not run: the three functions alone, as written
+        helpers = []
+    _ENV.update(B=cl['B'], jobmod=jobmod, ex=cl['ex'], line_codes=cl['roots'] + helpers + eq_codes,
+                eq_codes=eq_codes, maxlen=_observed_init()['maxlen'], backtrace=_observed_server()['backtrace'])
     return _ENV
 
 
@@ -559,6 +985,7 @@ class World:
         b.status = {}
         self.in_job = False
         self.dead = False
+        self.holding, self.marker_seen = None, False
         q = b.task_queue
         orig_put, orig_get = q.put, q.get
 
@@ -571,6 +998,7 @@ class World:
             s.stop('get', enabled=lambda: len(q.queue) > 0)
             item = orig_get(False)
             self.in_job = True
+            self.holding, self.marker_seen = item, False
             s.note('get', item._vid)
             return item
         q.put, q.get = put, get
@@ -619,6 +1047,14 @@ class World:
     def snapshot(self):
         b = self.b
         cur = b.status.get('current job')
+        if cur is not None:
+            if cur is self.holding:
+                self.marker_seen = True
+        elif self.in_job and not self.marker_seen:
+            # `job = get()` and `status['current job'] = job` written as two statements: the worker holds the job,
+            # the marker is stored by the statement that follows.  The model does both in one step (MStart), so the
+            # job counts as current from the get on; the statement storing the marker then changes nothing.
+            cur = self.holding
         return (tuple(j._vid for j in b.task_queue.queue),
                 None if cur is None else cur._vid,
                 tuple((j._vid, _canon_job(j)) for j in b.tasks_done),
